@@ -217,7 +217,24 @@ fn seq(r: &mut Rng, d: usize) -> String {
 pub fn grammar(r: &mut Rng) -> String {
     let mut s = String::new();
     for _ in 0..r.usize(3) {
-        match r.below(3) {
+        match r.below(6) {
+            // a generic alias whose parameter is named like a primitive, referenced as `<'int>`
+            3 => {
+                let p = *r.pick(&["int", "bin", "ref", "t"]);
+                match r.below(3) {
+                    0 => s.push_str(&format!("'fn{}<'{p}> = #(<'{p}>) -> (<'{p}>)\n", r.below(3))),
+                    1 => s.push_str(&format!("'pr{}<'{p}> = (@(<'{p}>) -> (<'{p}>))\ng = #(<'{p}>) {{ $ }}\n", r.below(3))),
+                    _ => s.push_str(&format!("'box{}<'{p}> = Box[<'{p}>, {}]\n", r.below(3), ty(r, 1))),
+                }
+            }
+            // an alias ending in a tuple name (empty named tuple type), then a `(`-initial statement
+            4 => {
+                s.push_str(&format!("'e{} = {}\n", r.below(3), r.pick(&["Foo[]", "Foo", "A | Foo[]", "[Foo[]] | Bar"])));
+                if r.chance(2, 3) {
+                    s.push_str(&format!("{} = A[x: 1]\n", r.pick(&["(x)", "()", "(x: 1)", "('int)z", "(a | b)"])));
+                }
+            }
+            5 => s.push_str(&format!("f{} = #'box0<{}> {{ $ }}\n", r.below(3), ty(r, 1))),
             0 => s.push_str(&format!("'alias{} = {}\n", r.below(3), ty(r, 3))),
             1 => s.push_str(&format!("'u<'t> = A | B['t] | {}\n", ty(r, 2))),
             _ => s.push_str("// comment\n"),
